@@ -70,3 +70,40 @@ theorem encodeWith_good_injective (esc sep : UInt8) (h : esc ≠ sep) (a b : Lis
   exact (Option.some.inj ha).symm
 
 end MtailVerif.Key
+
+namespace MtailVerif.Key
+
+/-- decoder that does not need the arity: decode labels until the key is exhausted -/
+def decAll (esc sep : UInt8) : Nat → Bytes → Option (List Bytes)
+  | _, [] => some []
+  | 0, _ :: _ => none
+  | n+1, c :: cs => match dec1 esc sep false [] (c :: cs) with
+    | none => none
+    | some (l, rest) => (decAll esc sep n rest).map (l :: ·)
+
+theorem decAll_enc (esc sep : UInt8) (h : esc ≠ sep) (ls : List Bytes) (n : Nat) (hn : ls.length ≤ n) :
+    decAll esc sep n (encodeWith (goodReps esc sep) [sep] ls) = some ls := by
+  induction ls generalizing n with
+  | nil => cases n <;> simp [decAll, encodeWith]
+  | cons l ls ih =>
+    cases n with
+    | zero => simp at hn
+    | succ n =>
+      simp only [encodeWith, escapeWith_good esc sep h]
+      have hd := dec1_esc esc sep h l [] (encodeWith (goodReps esc sep) [sep] ls)
+      simp only [List.append_assoc, List.singleton_append, List.nil_append] at hd ⊢
+      generalize hs : List.flatMap (escB esc sep) l ++ sep :: encodeWith (goodReps esc sep) [sep] ls = s at hd
+      cases s with
+      | nil => simp at hs
+      | cons c cs =>
+        simp only [decAll, hd]
+        rw [ih n (by simpa using hn)]; rfl
+
+theorem encodeWith_good_injective_any (esc sep : UInt8) (h : esc ≠ sep) (a b : List Bytes)
+    (he : encodeWith (goodReps esc sep) [sep] a = encodeWith (goodReps esc sep) [sep] b) : a = b := by
+  have ha := decAll_enc esc sep h a (max a.length b.length) (Nat.le_max_left _ _)
+  have hb := decAll_enc esc sep h b (max a.length b.length) (Nat.le_max_right _ _)
+  rw [he, hb] at ha
+  exact (Option.some.inj ha).symm
+
+end MtailVerif.Key
